@@ -38,6 +38,10 @@ def run(repo: Repo, rep: Report):
                     n_loops += 1
                     rep.saw(f"{mod.name}.{q}")
                     _classify_while(repo, folder, rep, mod, q, fn, n)
+                if isinstance(n, ast.For) and isinstance(n.iter, ast.Call) and call_name(n.iter) == "iter" and len(n.iter.args) == 2:
+                    # for x in iter(callable, sentinel): ends when the callable returns the sentinel - decided by interpretation
+                    n_loops += 1
+                    rep._c17_deferred.append((f"{mod.name}.{q}: for {unparse(n.target)} in {unparse(n.iter)[:50]}", mod.name, n.lineno, "ends when the callable returns the sentinel"))
                 if isinstance(n, ast.For):
                     w = _endless_for_as_while(n)
                     if w is not None:
@@ -47,7 +51,7 @@ def run(repo: Repo, rep: Report):
                     elif _is_endless_iter(n.iter):
                         rep._c17_undecided.append(f"{mod.name}.{q}: for {unparse(n.target)} in {unparse(n.iter)} (endless iterator; no leading `if ..: break` to read the loop condition from)")
                     _check_growing_for(rep, mod, q, fn, n)
-    rep.floor("while loops in the package", n_loops, 5)
+    rep.floor("loops that need a termination argument (while, endless for)", n_loops, 3)
     _check_recursion(repo, rep, res)
     _check_xml_entry(repo, rep)
     rep.rule("R-TERM.regex", "no regular expression of the package has an ambiguous iteration (exponential backtracking)")
@@ -66,6 +70,18 @@ def run(repo: Repo, rep: Report):
             pipeline_ok = "exceeded" not in str(e) and "budget" not in str(e)
             if not pipeline_ok:
                 rep.fail("R-TERM.loop", "svg.SVG.topicosvg", "conversion of the schematic document", f"the interpreted conversion does not end: {e}"[:300], repo["svg"], repo["svg"].func("SVG.topicosvg"))
+        # loops of the lower layers are exercised by the path-data corpus (parser), by printing and re-reading command sequences, and by the
+        # outline comparison of the reuse search; a run that exhausts its budget there is a loop that does not end on a concrete input
+        from sa.rules import semparse, semreuse
+        for what, fn_ in (("parsing the path-data corpus", lambda sr: semparse.check_parser(repo, sr, "x", "x")),
+                          ("printing and re-reading command sequences", lambda sr: semparse.check_command_roundtrip(repo, sr, "x")),
+                          ("comparing outlines", lambda sr: semreuse.check_verification(repo, sr, "x"))):
+            try:
+                fn_(Report("C17", "selftest"))
+            except AnalysisError as e:
+                if "exceeded" in str(e) or "budget" in str(e):
+                    pipeline_ok = False
+                    rep.fail("R-TERM.loop", "svg_path_iter.parse_svg_path" if "pars" in what else "svg_types.SVGPath", what, f"{what} does not end: {e}"[:300], repo["svg_types"])
     executed = repo.__dict__.get("_executed_loops", set())
     for site, modname, lineno, why in rep._c17_deferred:
         if (modname, lineno) not in executed:
@@ -222,7 +238,7 @@ def _classify_while(repo, folder, rep: Report, mod: Module, q: str, fn, loop: as
         else:
             rep._c17_deferred.append((site, mod.name, loop.lineno, "reference walk without a recognised visited set / cycle pre-check"))
         return
-    if failures and not failures[0].startswith("worklist loop: pushes"):
+    if failures and not failures[0].startswith("worklist loop:"):
         rep.fail("R-TERM.loop", F, f"while {test}", failures[0], mod, loop)
     else:
         # no argument of the closed list could be established from the loop's own text (for instance the pushed nodes come from a helper):
